@@ -54,6 +54,7 @@ Definition expected_inventory : list (string * string * string * string) := [
   ("maprange", "core", "JApiCore.getPropertiesNames", "m");
   ("maprange", "core", "newPathVariablesSchema", "userTypes");
   ("once", "catalog", "ExchangeJSightSchema.Compile", "e.onceCompile");
+  ("once", "catalog", "ExchangeRegexSchema.exampleOnce", "e.example.once");
   ("once", "directive", "NewDirectiveType", "eeOnce");
   ("panic", "catalog", "HTTPMethod.String", """Unknown method""");
   ("panic", "catalog", "ObjectBuilder.AddType", "err");
